@@ -5,6 +5,7 @@ import (
 	"context"
 	"flag"
 	"fmt"
+	"math"
 	"sort"
 	"strings"
 	"time"
@@ -13,6 +14,7 @@ import (
 	"github.com/google/badwolf/storage"
 	"github.com/google/badwolf/storage/memory"
 	"github.com/google/badwolf/triple"
+	"github.com/google/badwolf/triple/literal"
 	"github.com/google/badwolf/triple/node"
 	"github.com/google/badwolf/triple/predicate"
 )
@@ -225,30 +227,44 @@ func (g *storeGen) pickUniverse(n int, big bool) {
 		os = append(os, objs[g.r.intn(len(objs))])
 	}
 	os = append(os, triple.NewNodeObject(ns[0]))
+	if big && g.r.chance(1, 5) {
+		// two int64 values whose varints are longer than eight bytes and agree on the first eight
+		bigs := []int64{1 << 55, 1 << 56, 1 << 57, math.MaxInt64, -(1 << 56)}
+		i := g.r.intn(len(bigs))
+		os = append(os, triple.NewLiteralObject(mustLit(literal.Int64, bigs[i])), triple.NewLiteralObject(mustLit(literal.Int64, bigs[(i+1+g.r.intn(len(bigs)-1))%len(bigs)])))
+	}
 	// no two different subjects, and no two different objects, of one universe share a UUID (D02:
 	// look-ups by a colliding component are exercised by the listed witness histories only)
 	{
 		seenU := map[string]string{}
+		firstN := map[string]*node.Node{}
 		var keep []*node.Node
 		for _, n := range ns {
 			u := string(n.UUID())
 			if prev, ok := seenU[u]; ok && prev != encNode(n) {
+				// two different nodes under one UUID: the model has to predict it (a K line asks it, on two triples that
+				// differ in that component only)
+				g.emit(fmt.Sprintf("K %s %s %s %s %s %s", encNode(firstN[u]), encPred(ps[0]), encObj(os[len(os)-1]), encNode(n), encPred(ps[0]), encObj(os[len(os)-1])), "collide")
 				continue
 			}
 			seenU[u] = encNode(n)
+			firstN[u] = n
 			keep = append(keep, n)
 		}
 		ns = keep
 		seenO := map[string]string{}
+		firstO := map[string]*triple.Object{}
 		var keepO []*triple.Object
 		for _, o := range os {
 			u := string(o.UUID())
 			if prev, ok := seenO[u]; ok && prev != encObj(o) {
 				if _, isP := o.Predicate(); isP != nil || prev[:2] != "PT" {
+					g.emit(fmt.Sprintf("K %s %s %s %s %s %s", encNode(ns[0]), encPred(ps[0]), encObj(firstO[u]), encNode(ns[0]), encPred(ps[0]), encObj(o)), "collide")
 					continue
 				}
 			}
 			seenO[u] = encObj(o)
+			firstO[u] = o
 			keepO = append(keepO, o)
 		}
 		os = keepO
@@ -513,7 +529,7 @@ func (g *storeGen) randLo() *storage.LookupOptions {
 
 func (g *storeGen) history(mode string, length int) {
 	g.reset()
-	g.pickUniverse(6+g.r.intn(14), false)
+	g.pickUniverse(6+g.r.intn(14), true)
 	defLo := func() *storage.LookupOptions { return &storage.LookupOptions{} }
 	for i := 0; i < length; i++ {
 		n := g.names[g.r.intn(len(g.names))]
